@@ -272,7 +272,7 @@ theorem memOK_memAllocAll {s : State} (h : MemOK s) (r : Rec) (l : List IP) (hl 
 /-! ## the first-fit pick -/
 
 def PickOK (s : State) (subnet : String) (ip : IP) (rs : List Range) : Prop :=
-  ip ∈ walk rs ∧ ip ∈ s.free ∧ hasSubnet s.pools ip subnet = true
+  ip ∈ walk rs ∧ ip ∈ s.free ∧ hasSubnet s.pools ip subnet = true ∧ ip ∈ walkConfigured s.pools rs
 
 theorem pickRanges_spec (s : State) (subnet : String) :
     ∀ (ranges : List (List Range)) (picked picks : List IP), pickRanges s subnet ranges picked = some picks →
@@ -293,7 +293,7 @@ theorem pickRanges_spec (s : State) (subnet : String) :
       have hmem := List.mem_of_find?_eq_some hfind
       simp only [Bool.and_eq_true, decide_eq_true_eq, Bool.not_eq_true', List.contains_eq_mem, decide_eq_false_iff_not] at hp
       obtain ⟨new, hpk, hfa, hnd⟩ := ih _ _ h
-      refine ⟨ip :: new, by simp [hpk], Forall2.cons ⟨hmem, hp.1.1, hp.1.2⟩ hfa, ?_⟩
+      refine ⟨ip :: new, by simp [hpk], Forall2.cons ⟨mem_walk_of_walkConfigured hmem, hp.1.1, hp.1.2, hmem⟩ hfa, ?_⟩
       intro hn
       apply hnd
       rw [List.nodup_append]
